@@ -409,6 +409,35 @@ func TestC20Table(t *testing.T) {
 		{"prepared off, missing file", func(c *config.AppConfig) { c.Db.PreparedDbFilePath = filepath.Join(c20Dir, "nope.gz") }, true},
 		{"nil db section", func(c *config.AppConfig) { c.Db = nil }, false},
 	}
+	// every database rule combined with every engine: engine x prepared-database variant x one engine-specific defect
+	for _, eng := range []config.DbEngine{config.DBSQLite, config.DBPostgreSQL} {
+		eng := eng
+		for _, pv := range []struct {
+			name  string
+			mut   func(c *config.AppConfig)
+			valid bool
+		}{
+			{"prepared off", func(c *config.AppConfig) {}, true},
+			{"prepared with empty path", func(c *config.AppConfig) { c.Db.PreparedDb = true; c.Db.PreparedDbFilePath = "" }, false},
+			{"prepared with missing file", func(c *config.AppConfig) {
+				c.Db.PreparedDb = true
+				c.Db.PreparedDbFilePath = filepath.Join(c20Dir, "nope.gz")
+			}, false},
+			{"prepared with existing file", func(c *config.AppConfig) { c.Db.PreparedDb = true; c.Db.PreparedDbFilePath = existing }, true},
+		} {
+			pv := pv
+			cases = append(cases, vcase{fmt.Sprintf("engine %s, %s", eng, pv.name), func(c *config.AppConfig) { c.Db.Engine = eng; pv.mut(c) }, pv.valid})
+			cases = append(cases, vcase{fmt.Sprintf("engine %s broken, %s", eng, pv.name), func(c *config.AppConfig) {
+				c.Db.Engine = eng
+				pv.mut(c)
+				if eng == config.DBSQLite {
+					c.Db.SQLite.FilePath = ""
+				} else {
+					c.Db.Postgres.User = ""
+				}
+			}, false})
+		}
+	}
 	for _, vc := range cases {
 		c := config.GetDefaultAppConfig()
 		vc.mut(c)
